@@ -153,6 +153,140 @@ Proof.
   destruct r; simpl; split; auto; intros H; try contradiction; auto.
 Qed.
 
+(* ---------- the executable property predicate holds of the model on every decoded input ---------- *)
+Lemma path_prefix_app root : forall rel, path_prefix root (root ++ rel) = true.
+Proof.
+  induction root as [|e r IH]; intros rel; [reflexivity|]. cbn [app path_prefix].
+  rewrite (proj2 (bytes_eqb_eq e e) eq_refl). apply IH.
+Qed.
+Lemma bytes_eqb_refl' l : bytes_eqb l l = true.
+Proof. apply bytes_eqb_eq. reflexivity. Qed.
+Lemma fs_get_find fs p : p <> [] -> fs_get fs p = fs_find fs p.
+Proof. destruct p; [congruence|reflexivity]. Qed.
+
+Lemma walk_dir fs rest : forall cur, walk fs cur rest = RDir -> fs_get fs (cur ++ rest) = Some NDir.
+Proof.
+  induction rest as [|e r IH]; intros cur H; simpl in H.
+  - rewrite app_nil_r. destruct (fs_get fs cur) as [[c'|]|]; try discriminate. reflexivity.
+  - destruct (fs_get fs cur) as [[c'|]|]; try discriminate.
+    destruct (NAME_MAX <? blen e); [discriminate|].
+    apply IH in H. rewrite <- app_assoc in H. exact H.
+Qed.
+Lemma walk_not_invalid fs rest : forall cur, walk fs cur rest <> RInvalid.
+Proof.
+  induction rest as [|e r IH]; intros cur; simpl.
+  - destruct (fs_get fs cur) as [[c'|]|]; discriminate.
+  - destruct (fs_get fs cur) as [[c'|]|]; try discriminate.
+    destruct (NAME_MAX <? blen e); [discriminate|apply IH].
+Qed.
+Lemma walk_not_toolong fs rest : forall cur, forallb plain_elem rest = true -> walk fs cur rest <> RTooLong.
+Proof.
+  induction rest as [|e r IH]; intros cur H; simpl.
+  - destruct (fs_get fs cur) as [[c'|]|]; discriminate.
+  - simpl in H. apply andb_true_iff in H. destruct H as [He Hr].
+    destruct (fs_get fs cur) as [[c'|]|]; try discriminate.
+    unfold plain_elem in He. rewrite !andb_true_iff in He. destruct He as [_ Hl].
+    destruct (NAME_MAX <? blen e) eqn:E; [lia|apply IH; exact Hr].
+Qed.
+
+Lemma prefixes_in (a : list elem) e r : In a (prefixes (a ++ e :: r)).
+Proof.
+  induction a as [|x a IH]; cbn [app prefixes]; [left; reflexivity|].
+  right. apply in_map. exact IH.
+Qed.
+Lemma walk_present fs : fs_closed fs = true -> forall rest cur n,
+  cur ++ rest <> [] -> fs_find fs (cur ++ rest) = Some n ->
+  walk fs cur rest = match n with NFile c => RFile c | NDir => RDir end.
+Proof.
+  intros Hcl. induction rest as [|e r IH]; intros cur n Hne Hf.
+  - rewrite app_nil_r in *. simpl. rewrite fs_get_find by exact Hne. rewrite Hf. destruct n; reflexivity.
+  - pose proof (fs_find_in _ _ _ Hf) as Hin.
+    unfold fs_closed in Hcl. rewrite forallb_forall in Hcl. specialize (Hcl _ Hin). cbn [fst] in Hcl.
+    apply andb_true_iff in Hcl. destruct Hcl as [Hpre Hplain].
+    rewrite forallb_forall in Hpre. specialize (Hpre cur (prefixes_in cur e r)).
+    cbn [walk]. destruct (fs_get fs cur) as [[c'|]|]; try discriminate.
+    rewrite forallb_forall in Hplain. assert (He : plain_elem e = true) by (apply Hplain; apply in_or_app; right; left; reflexivity).
+    unfold plain_elem in He. rewrite !andb_true_iff in He. destruct He as [_ Hl].
+    destruct (NAME_MAX <? blen e) eqn:E; [lia|].
+    apply IH; rewrite <- app_assoc; cbn [app]; [exact Hne|exact Hf].
+Qed.
+
+Lemma clean_from_plain es : forall stk, forallb plain_elem es = true -> clean_from stk es = rev es ++ stk.
+Proof.
+  induction es as [|e r IH]; intros stk H; [reflexivity|]. simpl in H. apply andb_true_iff in H. destruct H as [He Hr].
+  cbn [clean_from fold_left]. change (fold_left clean_step r (clean_step stk e)) with (clean_from (clean_step stk e) r).
+  unfold plain_elem in He. rewrite !andb_true_iff, !negb_true_iff in He. destruct He as [[[[H1 H2] H3] _] _].
+  unfold clean_step. rewrite H1, H2, H3. cbn [orb]. rewrite IH by exact Hr. cbn [rev]. rewrite <- app_assoc. reflexivity.
+Qed.
+Lemma plain_has_nul es : forallb plain_elem es = true -> has_nul es = false.
+Proof.
+  induction es as [|e r IH]; intros H; [reflexivity|]. simpl in H. apply andb_true_iff in H. destruct H as [He Hr].
+  unfold has_nul in *. cbn [existsb]. rewrite (IH Hr), orb_false_r.
+  unfold plain_elem in He. rewrite !andb_true_iff, !negb_true_iff in He. tauto.
+Qed.
+Lemma plain_dir_open fs root name es : plain_path name = Some es ->
+  dir_open fs root name = walk fs [] (root ++ es) /\ forallb plain_elem es = true.
+Proof.
+  unfold plain_path. destruct (split_byte SLASH name) as [|[|x xs] rest] eqn:E; try discriminate.
+  destruct (forallb plain_elem rest) eqn:Ep; [|discriminate]. intros H. inversion H; subst es. split; [|exact Ep].
+  unfold dir_open, opened_path, clean_name, clean_abs. rewrite E.
+  cbn [clean_from fold_left]. change (fold_left clean_step rest (clean_step [] [])) with (clean_from (clean_step [] []) rest).
+  change (clean_step [] []) with (@nil elem). rewrite clean_from_plain by exact Ep. rewrite app_nil_r, rev_involutive.
+  rewrite plain_has_nul by exact Ep. reflexivity.
+Qed.
+
+Theorem prop_resp_of_model : forall x,
+  let r := serve_input x in prop_resp x (r_status r) (r_body r) (r_clen r) (r_cenc r) = true.
+Proof.
+  intros x. unfold serve_input. destruct x as [meth name ae root def compress fs]. cbn [i_fs i_root i_meth i_name i_ae i_def i_compress].
+  unfold prop_resp. cbn [i_fs i_root i_meth i_name i_ae i_def i_compress].
+  pose proof (serve_200_under_root fs root meth name ae def compress) as H200.
+  unfold serve in *.
+  destruct (negb (bytes_eqb meth GET) && negb (bytes_eqb meth HEAD)) eqn:Em; [reflexivity|].
+  set (encs := if compress then accept_list ae else []) in *.
+  apply andb_true_iff. split.
+  - (* whatever is served lies under the root *)
+    destruct (open_static_file fs root name def encs) as [res enc] eqn:EO.
+    destruct res; cbn [r_status r_body r_clen Z.eqb Pos.eqb]; try reflexivity.
+    cbn [r_status r_body r_clen] in H200. destruct (H200 eq_refl) as [rel [c' [_ [_ [Hget [Hcl [Hbody Hm]]]]]]].
+    assert (Hne : root ++ rel <> []) by (intros E0; rewrite E0 in Hget; discriminate).
+    rewrite fs_get_find in Hget by exact Hne. apply fs_find_in in Hget.
+    unfold served_from_root. apply existsb_exists. exists (root ++ rel, NFile c'). split; [exact Hget|].
+    rewrite path_prefix_app, Hcl, bytes_eqb_refl'. cbn [andb].
+    destruct Hm as [Hm|Hm]; subst meth; [change (bytes_eqb GET GET) with true; change (bytes_eqb GET HEAD) with false in Hbody|
+                                         change (bytes_eqb HEAD GET) with false; change (bytes_eqb HEAD HEAD) with true in Hbody];
+      rewrite Hbody; apply bytes_eqb_refl'.
+  - (* plain paths *)
+    destruct (plain_path name) as [es|] eqn:Epl; [|reflexivity].
+    destruct compress; [reflexivity|]. cbn [orb].
+    destruct (fs_closed fs) eqn:Ecl; [|reflexivity]. cbn [negb orb].
+    destruct (forallb plain_elem root) eqn:Er; [|reflexivity]. cbn [negb].
+    destruct (plain_dir_open fs root name es Epl) as [Hopen Hes].
+    subst encs. unfold open_static_file, new_static_file. cbn [pick_sibling fst]. rewrite Hopen.
+    destruct (fs_get fs (root ++ es)) as [[c|]|] eqn:Eg; [| reflexivity |].
+    + assert (Hne : root ++ es <> []) by (intros E0; rewrite E0 in Eg; discriminate).
+      rewrite fs_get_find in Eg by exact Hne.
+      change (root ++ es) with ([] ++ (root ++ es)) in Eg.
+      rewrite (walk_present fs Ecl (root ++ es) [] (NFile c) Hne Eg).
+      cbn [r_status r_body r_clen Z.eqb Pos.eqb andb]. rewrite bytes_eqb_refl'. cbn [andb].
+      apply andb_false_iff in Em. destruct Em as [Em|Em]; apply negb_false_iff in Em; apply bytes_eqb_eq in Em; subst meth.
+      * change (bytes_eqb GET GET) with true. change (bytes_eqb GET HEAD) with false. apply bytes_eqb_refl'.
+      * change (bytes_eqb HEAD GET) with false. change (bytes_eqb HEAD HEAD) with true. reflexivity.
+    + destruct def as [|d0 def']; [|reflexivity].
+      destruct (walk fs [] (root ++ es)) eqn:Ew.
+      * apply walk_file in Ew. cbn [app] in Ew. rewrite Ew in Eg. discriminate.
+      * apply walk_dir in Ew. cbn [app] in Ew. rewrite Ew in Eg. discriminate.
+      * reflexivity.
+      * exfalso. apply (walk_not_toolong fs (root ++ es) []); [|exact Ew]. rewrite forallb_app, Er, Hes. reflexivity.
+      * exfalso. apply (walk_not_invalid fs (root ++ es) [] Ew).
+Qed.
+
+Theorem prop_C50_of_model : forall i, dec_input i <> None -> prop_C50 i (run_C50 i) = true.
+Proof.
+  intros i Hd. unfold prop_C50, run_C50. destruct (dec_input i) as [x|]; [|contradiction].
+  unfold enc_resp. apply prop_resp_of_model.
+Qed.
+
 Lemma C50_example_lemma :
   let fs := [([[119]], NDir); ([[119]; [97]], NFile [1; 2; 3]); ([[115]], NFile [9])] in
   r_status (serve fs [[119]] GET [47; 46; 46; 47; 115] [] [] false) = 404 /\
